@@ -260,6 +260,8 @@ type vclock struct {
 
 func (c *vclock) Now() time.Time { c.mu.Lock(); defer c.mu.Unlock(); return c.now }
 
+func (c *vclock) advance(d time.Duration) { c.mu.Lock(); c.now = c.now.Add(d); c.mu.Unlock() }
+
 // ---------------------------------------------------------------------------
 // cases
 
@@ -299,6 +301,8 @@ type hstep struct {
 	Modes   []mode `json:"-"`
 	Listed  []int  `json:"-"`
 	Size    int    `json:"list_size"`
+	Advance string `json:"clock_advanced_before_request,omitempty"`
+	advance time.Duration
 }
 
 // genHistory: a request that succeeds (so that a client which remembers hosts
@@ -308,7 +312,7 @@ func genHistory(r *rand.Rand, id string, poolSize int, size int) *hcase {
 	if size < 4 {
 		size += 4
 	}
-	c := &hcase{ID: id, ListSize: size, Pattern: "history", PFails: r.Intn(4)}
+	c := &hcase{ID: id, ListSize: size, Pattern: "history", PFails: []int{0, 1, 1, 2, 3}[r.Intn(5)]}
 	all := r.Perm(poolSize)[:size]
 	c.Listed = all
 	cur := append([]int(nil), all...)
@@ -325,6 +329,8 @@ func genHistory(r *rand.Rand, id string, poolSize int, size int) *hcase {
 			kind = 3
 		case x < 9 && len(cur) < size:
 			kind = 4
+		case x < 12 && len(cur) > 4:
+			kind = 5
 		}
 		switch kind {
 		case 0:
@@ -342,6 +348,20 @@ func genHistory(r *rand.Rand, id string, poolSize int, size int) *hcase {
 		case 4:
 			cur = append([]int(nil), all...)
 			st.Pattern = "departed-hosts-are-back,all-reset"
+		case 5:
+			// many hosts leave (some of them marked unhealthy by the failures before) and
+			// the passive filter's FailTimeout (1m) elapses before the next request
+			r.Shuffle(len(cur), func(a, b int) { cur[a], cur[b] = cur[b], cur[a] })
+			keep := 2 + r.Intn(len(cur)/2)
+			st.Pattern = fmt.Sprintf("%d-hosts-left-the-list,fail-timeout-elapsed,all-reset", len(cur)-keep)
+			cur = append([]int(nil), cur[:keep]...)
+			st.advance = time.Minute + time.Duration(1+r.Intn(120))*time.Second
+		}
+		if st.advance == 0 && r.Intn(5) == 0 {
+			st.advance = []time.Duration{20 * time.Second, 59 * time.Second, 61 * time.Second, 5 * time.Minute}[r.Intn(4)]
+		}
+		if st.advance > 0 {
+			st.Advance = st.advance.String()
 		}
 		lucky := cur[r.Intn(len(cur))]
 		for h := range st.Modes {
@@ -487,6 +507,7 @@ func runCase(p *pool, c *hcase, callSeq *int) (fs []finding, st stats, slow bool
 		modes, curListed := c.Modes, c.Listed
 		if len(c.Steps) > 0 {
 			modes, curListed = c.Steps[oi].Modes, c.Steps[oi].Listed
+			clk.advance(c.Steps[oi].advance)
 			listed = nil
 			for _, h := range curListed {
 				listed = append(listed, p.addrs[h])
@@ -600,8 +621,19 @@ func runCase(p *pool, c *hcase, callSeq *int) (fs []finding, st stats, slow bool
 		if int64(len(hosts)) > st.maxHosts {
 			st.maxHosts = int64(len(hosts))
 		}
+		inBase := map[string]bool{}
+		for _, a := range listed {
+			inBase[a] = true
+		}
+		for _, a := range resolved[0] {
+			if !inBase[a] {
+				// the health-checked list handed the client a host that is not in the host list
+				add(o.Client+"-host-list-resolves-to-a-host-outside-the-current-list", map[string]interface{}{"host": a})
+				break
+			}
+		}
 		for _, h := range hosts {
-			if !cur[p.addrs[h]] {
+			if !cur[p.addrs[h]] || !inBase[p.addrs[h]] {
 				add(o.Client+"-contacts-host-outside-the-current-list", map[string]interface{}{"host": p.addrs[h]})
 			}
 		}
@@ -771,7 +803,7 @@ func TestC25(t *testing.T) {
 			"(all ok / all reset / all 503 / one ok / one reset / 30-60-90% reset / mixed reset+503+404) and 1-3 requests drawn from the tagclient cluster operations "+
 			"(do path and the single-attempt CheckReadiness, over the real Passive host list) and blobclient Locations / ClientResolver / ClusterClient.CheckReadiness. "+
 			"Every third case is a history on ONE long-lived client (4-7 requests, list of 4-30 hosts, Passive or NoopFailed list): a request that succeeds, then requests during which every listed host resets, "+
-			"hosts leave the list or come back, one host recovers. "+
+			"hosts leave the list (also while marked unhealthy, with the mock clock advanced past the passive FailTimeout) or come back, one host recovers. "+
 			"A case is non-trivial when (a) size>0 and n>0, (b) the list has >= 2 hosts and at least one listed host fails.")
 	defer run.Finish()
 	run.Assume("a listener that hijacks the connection and closes it with SO_LINGER 0 is what a network failure looks like to the client")
